@@ -6,6 +6,7 @@ import TxdbusModel.Msg.SpecMsg
 import TxdbusModel.Wire.Code
 import TxdbusModel.Msg.WireCodec
 import TxdbusModel.Msg.General
+import TxdbusModel.Msg.Again
 import TxdbusModel.Proofs.Wire.Conf
 import TxdbusModel.Proofs.Wire.CodePrim
 /-!
@@ -58,6 +59,19 @@ Driver for property C03.  One operation per line (tokens separated by single spa
       first byte `l` or `B`), else `0`.  thm (with cert=1 and a successful call): the theorem's conclusion re-checked on the
       evaluated model - parsing the re-marshalled bytes gives the same class, serial, flags, otherFlags, body bytes and every
       attribute except `sender` = the given name: `1` | `0`; `-` otherwise.
+
+  Histories (state-leak round 2026-09-30): the driver keeps a running serial counter and the list of the objects the
+  `build` lines of the current history constructed (index = number of the `build` line within the history, from 0).
+  hist <next>      start a history: counter := next, no objects          -> `ok`
+  build … with `=` in place of <next>: the running counter is used.  EVERY `build` line sets the running counter to the
+      counter after the call and appends the object (or "none" when the constructor raised) to the list.
+  again <ref> <T|F> <oob> <pre>      `obj[ref]._marshal(newSerial=<T|F>, oobFDs=<oob>)` (rawBody=None) at the running counter
+      (Msg/Again.lean `marshalAgain`); <pre> = what marshal.marshal does with the object's body and this `oobFDs`.
+      -> as build, plus ` same=<1|0|->`: with the `oobFDs` and <pre> of the object's construction, the conclusion of
+      `marshal_again_same` (newSerial=F: the object and the counter are unchanged) / `marshal_again_new` (newSerial=T: outcome
+      and counter = the constructor call run again at the running counter) re-checked on the evaluated model; `-` otherwise.
+      A failure of the body codec leaves the object as it was; after any other failure the object is dropped
+      (`err kind=Exception next=<n> same=-` for later references, as for a reference to a failed construction).
 
 attr = N | s<strhex> | i<dec> | b0 | b1 | d<16 hex> | L[<attr>,…] | D[<attr>:<attr>,…] | ?<kind>
 
@@ -195,13 +209,28 @@ def genUnmarshalBit (raw : Bytes) (fds : Option (List PyVal)) : String :=
 /-- Step budget of the general header codec in `buildg` / `parseg` / `forwardg` (4 + the nesting depth of a field value). -/
 def gFuel : Nat := 64
 
-def buildStepWith (general : Bool) (toks : List String) : String :=
+/-- An object of the current history: the message, and how it was constructed (for the `same=` bit of `again`). -/
+structure HObj where
+  msg : Msg PreBody
+  call : Call PreBody
+  maxLen : Nat
+  oobTok : String
+  preTok : String
+
+/-- The driver's state: the running serial counter and the objects of the current history. -/
+structure HState where
+  next : Nat := 1
+  objs : Array (Option HObj) := #[]
+
+/-- One `build` / `buildg` line; `cur` = the running counter (used when <next> is `=`).  Returns the answer, the counter
+afterwards and the constructed object. -/
+def buildCore (general : Bool) (cur : Nat) (toks : List String) : String × Nat × Option HObj :=
   match toks with
-  | [cls, nxt, mx, er, as, path, member, iface, errname, rserial, dest, sender, sg, oob, pre] =>
-    match nxt.toNat?, mx.toNat?, bool? er, bool? as, optStr? path, optStr? member, optStr? iface with
+  | [cls, nxt, mx, er, as, path, member, iface, errname, rserial, dest, sender, sg, oobTok, preTok] =>
+    match (if nxt == "=" then some cur else nxt.toNat?), mx.toNat?, bool? er, bool? as, optStr? path, optStr? member, optStr? iface with
     | some nxt, some mx, some er, some as, some path, some member, some iface =>
       match optStr? errname, (if rserial == "N" then some none else rserial.toInt?.map some), optStr? dest,
-            optStr? sender, optStr? sg, oob? oob, pre? pre with
+            optStr? sender, optStr? sg, oob? oobTok, pre? preTok with
       | some errname, some rserial, some dest, some sender, some sg, some oob, some pre =>
         let T := Gen.Message.tables
         let na : Char → Bool := fun _ => false
@@ -220,20 +249,76 @@ def buildStepWith (general : Bool) (toks : List String) : String :=
                             signature := sg, body := pre })
           else none
         match call with
-        | none => "bad-input"
+        | none => ("bad-input", cur, none)
         | some c =>
           let r := if general then constructG T preCodec gFuel na mx st c else construct T preCodec na mx st c
           match r.2 with
-          | .error e => "err kind=" ++ pyErrName e ++ " next=" ++ toString r.1.nextSerial
+          | .error e => ("err kind=" ++ pyErrName e ++ " next=" ++ toString r.1.nextSerial, r.1.nextSerial, none)
           | .ok m =>
-            "ok serial=" ++ toString m.serial ++ " next=" ++ toString r.1.nextSerial ++
-            " raw=" ++ bytesToHex m.raw ++ " hdr=" ++ bytesToHex m.rawHeader ++
-            " pad=" ++ bytesToHex m.rawPadding ++ " body=" ++ bytesToHex m.rawBody ++
-            " ufds=" ++ attrStr (m.attrs .unixFds) ++ " wf=" ++ wfBit m.raw ++
-            (if general then "" else " gen=" ++ genMarshalBit m)
-      | _, _, _, _, _, _, _ => "bad-input"
-    | _, _, _, _, _, _, _ => "bad-input"
-  | _ => "bad-input"
+            ("ok serial=" ++ toString m.serial ++ " next=" ++ toString r.1.nextSerial ++
+             " raw=" ++ bytesToHex m.raw ++ " hdr=" ++ bytesToHex m.rawHeader ++
+             " pad=" ++ bytesToHex m.rawPadding ++ " body=" ++ bytesToHex m.rawBody ++
+             " ufds=" ++ attrStr (m.attrs .unixFds) ++ " wf=" ++ wfBit m.raw ++
+             (if general then "" else " gen=" ++ genMarshalBit m),
+             r.1.nextSerial, some ⟨m, c, mx, oobTok, preTok⟩)
+      | _, _, _, _, _, _, _ => ("bad-input", cur, none)
+    | _, _, _, _, _, _, _ => ("bad-input", cur, none)
+  | _ => ("bad-input", cur, none)
+
+def buildStepWith (general : Bool) (toks : List String) : String := (buildCore general 1 toks).1
+
+/-- `build` inside a history: the running counter and the object list are updated. -/
+def buildHist (s : HState) (toks : List String) : HState × String :=
+  let (out, nxt, obj) := buildCore false s.next toks
+  ({ next := nxt, objs := s.objs.push obj }, out)
+
+def msgBeq (a b : Msg PreBody) : Bool :=
+  a.cls == b.cls && a.expectReply == b.expectReply && a.autoStart == b.autoStart && a.serial == b.serial &&
+  a.rawHeader == b.rawHeader && a.rawPadding == b.rawPadding && a.rawBody == b.rawBody && a.otherFlags == b.otherFlags &&
+  Attr.all.all fun x => attrStr (a.attrs x) == attrStr (b.attrs x)
+
+/-- `again <ref> <T|F> <oob> <pre>` (see the module comment). -/
+def againStep (s : HState) (toks : List String) : HState × String :=
+  match toks with
+  | [ref, nw, oobT, preT] =>
+    match ref.toNat?, bool? nw, oob? oobT, pre? preT with
+    | some i, some newSerial, some oob, some pre =>
+      match s.objs[i]? with
+      | some (some o) =>
+        let T := Gen.Message.tables
+        let m : Msg PreBody := { o.msg with body := pre }
+        let st : St := ⟨s.next⟩
+        let r := marshalAgain T preCodec o.maxLen st m newSerial oob
+        let cert := oobT == o.oobTok && preT == o.preTok
+        let same : String :=
+          if !cert then "-"
+          else if newSerial then
+            let r0 := construct T preCodec (fun _ => false) o.maxLen st o.call
+            if r.1.nextSerial == r0.1.nextSerial &&
+               (match r.2, r0.2 with
+                | .ok a, .ok b => msgBeq a b
+                | .error a, .error b => a == b
+                | _, _ => false) then "1" else "0"
+          else
+            (match r.2 with
+             | .ok a => if msgBeq a o.msg && r.1.nextSerial == s.next then "1" else "0"
+             | .error _ => "0")
+        match r.2 with
+        | .error e =>
+          let bodyStage := match marshalBody T preCodec m.asPre oob with
+            | .error _ => true
+            | .ok _ => false
+          ({ next := r.1.nextSerial, objs := if bodyStage then s.objs else s.objs.set! i none },
+           "err kind=" ++ pyErrName e ++ " next=" ++ toString r.1.nextSerial ++ " same=" ++ same)
+        | .ok m2 =>
+          ({ next := r.1.nextSerial, objs := s.objs.set! i (some { o with msg := m2 }) },
+           "ok serial=" ++ toString m2.serial ++ " next=" ++ toString r.1.nextSerial ++
+           " raw=" ++ bytesToHex m2.raw ++ " hdr=" ++ bytesToHex m2.rawHeader ++
+           " pad=" ++ bytesToHex m2.rawPadding ++ " body=" ++ bytesToHex m2.rawBody ++
+           " ufds=" ++ attrStr (m2.attrs .unixFds) ++ " wf=" ++ wfBit m2.raw ++ " same=" ++ same)
+      | _ => (s, "err kind=Exception next=" ++ toString s.next ++ " same=-")
+    | _, _, _, _ => (s, "bad-input")
+  | _ => (s, "bad-input")
 
 /-- Step budget of the body codec (as Driver/WireOps.lean). -/
 def wFuel : Nat := 300
@@ -520,7 +605,6 @@ def specStep (toks : List String) : String :=
 
 def step (line : String) : String :=
   match words line with
-  | "build" :: toks => buildStepWith false toks
   | "buildg" :: toks => buildStepWith true toks
   | "parseg" :: toks => parsegStep toks
   | "forwardg" :: toks => forwardgStep toks
@@ -530,4 +614,15 @@ def step (line : String) : String :=
   | "spec" :: toks => specStep toks
   | _ => "bad-input"
 
-def main : IO Unit := Driver.run (fun (s : Unit) line => (s, step line)) ()
+/-- The history operations carry the state; everything else is a pure function of its line. -/
+def stepH (s : HState) (line : String) : HState × String :=
+  match words line with
+  | ["hist", n] =>
+    match n.toNat? with
+    | some k => ({ next := k, objs := #[] }, "ok")
+    | none => (s, "bad-input")
+  | "build" :: toks => buildHist s toks
+  | "again" :: toks => againStep s toks
+  | _ => (s, step line)
+
+def main : IO Unit := Driver.run stepH {}
